@@ -5,7 +5,7 @@ cd "$(dirname "$0")/.." || exit 2
 V=$(pwd)
 IDS=${*:-$(ls seeded)}
 for id in $IDS; do
-  p=$(python3 -c "import json;print(json.load(open('$V/seeded/$id/meta.json'))['property'])")
+  p=$(python3 -c "import json;d=json.load(open('$V/seeded/$id/meta.json'));print(d.get('check_with',d['property']))")
   out=$(tools/run_seeded.sh $id $p 2>&1 | tail -1)
   case "$out" in *"violations=0"*|*"does not apply"*|*"exit=2"*) echo "MISSED  $out";; *) echo "caught  $out";; esac
 done
